@@ -47,6 +47,47 @@ Section Keyless.
     match sget (hash r) s with Some (c, _) => c | None => 0 end.
 End Keyless.
 
+(* ---- secondary index of a keyless table (prollyKeylessSecondaryWriter; prollyTableWriter orders the
+   calls: secondary writers first, then the primary).  An index entry is (indexed value, hash id).
+   Insert puts the entry.  Delete reads the row's cardinality from the primary BEFORE the primary is
+   touched and removes the entry only when that cardinality is <= 1 ("if card > 1 { return nil }").
+   Update = Delete old; Insert new on the index, then Delete old; Insert new on the primary. ---- *)
+Definition ientry := (cell * N)%type.
+Definition ival (r : row) : cell := nth 0 r None.            (* the index is on the first column *)
+Definition ientry_eqb (a b : ientry) : bool := cell_eqb (fst a) (fst b) && (snd a =? snd b).
+Definition imem (v : cell) (h : N) (ix : list ientry) : bool := existsb (ientry_eqb (v, h)) ix.
+Definition iput (e : ientry) (ix : list ientry) : list ientry := if imem (fst e) (snd e) ix then ix else e :: ix.
+Definition idel (e : ientry) (ix : list ientry) : list ientry := filter (fun x => negb (ientry_eqb e x)) ix.
+
+Definition tstate := (store * list ientry)%type.
+
+Section KeylessIndex.
+  Variable hash : row -> N.
+
+  Definition sec_del (r : row) (s : store) (ix : list ientry) : list ientry :=
+    match sget (hash r) s with
+    | Some (c, _) => if 1 <? c then ix else idel (ival r, hash r) ix
+    | None => idel (ival r, hash r) ix
+    end.
+
+  Definition tstep (st : tstate) (o : op) : tstate :=
+    let '(s, ix) := st in
+    match o with
+    | Ins r => (ins hash r s, iput (ival r, hash r) ix)
+    | Del r => (del hash r s, sec_del r s ix)
+    | Upd a b => (ins hash b (del hash a s), iput (ival b, hash b) (sec_del a s ix))
+    end.
+
+  Definition trun (ops : list op) (st : tstate) : tstate := fold_left tstep ops st.
+End KeylessIndex.
+
+(* a lookup of value v through the index: every entry with that value leads to its row in the primary,
+   which is emitted cardinality times *)
+Definition ilookup_count (v : cell) (st : tstate) : N :=
+  fold_right (fun e acc => (if cell_eqb (fst e) v
+                            then match sget (snd e) (fst st) with Some (c, _) => c | None => 0 end else 0) + acc)
+             0 (snd st).
+
 (* keyless_iter: every entry is emitted cardinality times *)
 Definition scan (s : store) : list row :=
   flat_map (fun e => repeat (snd (snd e)) (N.to_nat (fst (snd e)))) s.
